@@ -282,6 +282,14 @@ func c19Protocol(c *core.Ctx) {
 			if cl.Go && fieldOf(info, cl.Expr.Fun) == "Timer.fn" {
 				restarts++
 				okRestart = okRestart && g.GuardedBy(cl.Loc, stopFalse)
+				// exactly on that edge: no further condition (a fired timer whose callback is still running, or any
+				// other state, must not suppress the new waiter — the re-armed runtime timer would tick with nobody
+				// listening and a later Stop would block on the signal)
+				for _, f := range g.Facts() {
+					if g.EdgeDominates(f.Br.B, f.Edge, cl.Loc) && stopFalse(rf, f.Br) == 0 {
+						okRestart = false
+					}
+				}
 			}
 			if cl.Name == "Reset" && cl.Recv != nil && fieldOf(info, cl.Recv) == "Timer.timer" && fieldOf(info, cl.Arg(0)) == "Timer.sleep" {
 				resets++
